@@ -229,7 +229,7 @@ def main(tier: str) -> int:
     core.pipeline(out, "c20", behaviours, "Generators_Trace", lock_mode="superset", chunk=200,
                   site_of=lambda tr, k: SITE[tr["ev"][k - 1]["op"]], tags_of=tags_of)
     out.rule = ("every call of Generators_Gen: ones / zeros / from_function for 8 shapes; tendiag / sptendiag with "
-                "element vectors shorter, equal, longer than the shape; teneye for orders 2, 4 and sizes 1-3 checked "
+                "element vectors shorter, equal, longer than the shape; teneye for orders 2, 4 (sizes 1-3) and 6 (sizes 1-2) checked "
                 "by its defining property on all vectors over {-1,0,1,2}; ktensor.from_function; the aggregating "
                 "constructor on every subscript list with <= 4 rows over a 2x2 (2x1x2) grid with arbitrary "
                 "multiplicities in every order x 3 value vectors x 4 reducers; sptenrand / sptensor.from_function for "
